@@ -150,7 +150,7 @@ for _n in ["f", "ff", "fg", "fff", "ffg", "gff", "fgf"]:
 for _q in (1, 2):
     H("C04", "cache_mod", "c04_cache_class_lookup_2classes_q%d" % _q, what="cache class lookup exact for every %d-byte query, classes a, a$" % _q, vars="%d query bytes" % _q,
       bound="2 classes", functions=["ProguardCache::get_class", "ProguardCache::remap_class", "ProguardCache::remap_throwable"], stubs=[])
-for _q, _t in [(1, "extra"), (2, "extra"), (3, "extra")]:
+for _q, _t in [(1, "thorough"), (2, "thorough"), (3, "thorough")]:
     H("C04", "cache_mod", "c04_cache_class_lookup_q%d" % _q, tier=_t, timeout=900, what="cache class lookup (binary search) is exact for every %d-byte query over {a,b,$,.,A,0,m} against classes a, a$, a., b" % _q,
       vars="%d query bytes" % _q, bound="4 classes, %d-byte queries" % _q, functions=["ProguardCache::get_class", "ProguardCache::remap_class", "ProguardCache::remap_throwable"], stubs=[])
 H("C04", "mapper", "p_mapper_dupclass", what="(shared with C01) real builder on [class a, method, class a again, method]: class and method lookup answer from the last class block with that name", bound="4 records (1 symbolic)", **_pb)
@@ -274,7 +274,7 @@ PROPS["C19"] = dict(
 _c19 = dict(functions=["ProguardMapping::has_line_info", "ProguardMapping::summary", "MappingSummary::new", "ProguardRecordIter::next"], stubs=["mapping::parse_proguard_record -> inject::parse_stub"], mode="full")
 H("C19", "mapping", "c19_folds_3", timeout=600, what="folds == reference, 3 items", vars="kinds/keys/values of 3 items", bound="3 items", **_c19)
 H("C19", "mapping", "c19_folds_5", timeout=900, what="folds == reference, 5 items", vars="kinds/keys/values of 5 items", bound="5 items", **_c19)
-H("C19", "mapping", "c19_folds_8", tier="extra", timeout=2400, what="folds == reference, 8 items", vars="kinds/keys/values of 8 items", bound="8 items", **_c19)
+H("C19", "mapping", "c19_folds_8", tier="thorough", timeout=2400, what="folds == reference, 8 items", vars="kinds/keys/values of 8 items", bound="8 items", **_c19)
 H("C19", "mapping", "c19_is_valid_window", timeout=1200, what="is_valid == 50-item window rule, 52 items of symbolic kind", vars="52 kinds", bound="52 items",
   functions=["ProguardMapping::is_valid", "ProguardRecordIter::next"], stubs=["mapping::parse_proguard_record -> inject::parse_stub"], mode="full")
 
